@@ -9,6 +9,8 @@ import vlib
 POS = ['position startpos', 'position startpos moves e2e4 e7e5', 'position fen 8/2p5/3p4/KP5r/1R3p1k/8/4P1P1/8 w - - 0 10',
        'position fen 6k1/5ppp/8/8/8/8/8/R6K w - - 0 1', 'position startpos moves g1f3 g8f6 f3g1 f6g8']
 
+LATE = 20000    # more polls than any scripted depth-limited search makes: the line is read by the main loop after the search
+
 def canon(out):
     """engine transcript -> canonical list of lines (markers dropped, time masked, display collapsed, readyok moved to the front of its search block)"""
     lines = out.split('\n'); res = []; i = 0; block = None
@@ -94,6 +96,10 @@ def run(ctx):
         [(0, 'position startpos moves e2e4'), (0, 'go infinite'), (0, 'stop'), (0, 'position startpos'), (0, 'go depth 1')],
         [(0, 'go movetime 0'), (0, 'isready')],
         [],
+        # resets without any position command in between (the tables must be cleared whatever the game history holds)
+        [(0, 'go depth 3'), (LATE, 'ucinewgame'), (0, 'go depth 3'), (LATE, 'isready')],
+        [(0, 'position startpos moves e2e4'), (0, 'go depth 2'), (LATE, 'ucinewgame'), (0, 'go depth 3'), (LATE, 'ucinewgame'), (0, 'go depth 3'), (LATE, 'isready')],
+        [(0, 'go depth 2'), (LATE, 'cleartt'), (0, 'position startpos'), (0, 'go depth 3'), (LATE, 'quit')],
     ]
     n = 60 if ctx.tier == 'quick' else 3000
     for _ in range(n): sessions.append(gen_session(rng))
